@@ -10,13 +10,18 @@ def run(ctx):
                            extra_assume=["the IAVL root hash is a function of the ordered sequence of tree operations (the hooks record that sequence; two replicas must perform identical sequences)",
                                          "Go's sort.Sort is a correct sort; its instability cannot matter because the orders are total (C01_selection_unique); proposals carry fewer than 12 options (below that Go's pdqsort is an insertion sort, the model's)",
                                          "go-ethereum state trie and StateDBWrapper.Finish write to distinct accounts (commuting writes; see C17)"],
-                           profile="corpus replica",
-                           nontrivial_rule="every history is executed on two real nodes (separate directories; Go randomises map iteration per loop): per-transaction answers, validator updates, application hashes, the tree operations of every ledger commit and the durable-write order must be identical, and every commit's tree operations must be 'removals, then sets in strictly descending key order'")
+                           profile="corpus replica noise",
+                           nontrivial_rule="every history is executed on two real nodes (separate directories; Go randomises map iteration per loop) and on a third one that also serves node-local mempool checks and queries: per-transaction answers, validator updates, application hashes, the tree operations of every ledger commit and the durable-write order must be identical, and every commit's tree operations must be 'removals, then sets in strictly descending key order'")
     if res is None:
         return
     st = ctx.app_stats
     for d in (st.get("ReplicaDiffs") or [])[:5]:
         V.violation(ctx, "replicas-differ", {"kind": "two-replicas-disagree", "what": d})
+    # "nothing node-local influences these outputs": a third replica serves mempool checks and queries
+    # (node-local traffic the others never see) while it executes the same blocks
+    for d in (st.get("NoiseDiffs") or [])[:5]:
+        V.violation(ctx, "replicas-differ-under-node-local-traffic", {"kind": "two-replicas-disagree", "what": d,
+                    "meaning": "a replica that also served CheckTx and Query calls answered differently from one that did not"})
     # a different but still deterministic order would not break C01 by itself: unless the two replicas
     # also differ, this is the correspondence with Ledger.v's commit order, not a failing input
     for d in (st.get("TreeOpBad") or [])[:5]:
